@@ -113,6 +113,8 @@ Definition wb_empty := {| wb_started := false; wb_text := false; wb_data := []; 
 
 (* extend: returns the new buffer and whether FrameTooLargeError was raised *)
 Definition wb_extend (max : Z) (b : wsbuffer) (is_text : bool) (d : bytes) : wsbuffer * bool :=
+  if (wb_length b >? max)%Z then (b, true)          (* already too large: nothing more is accepted *)
+  else
   let b' := {| wb_started := true; wb_text := if wb_started b then wb_text b else is_text;
                wb_data := wb_data b ++ d; wb_length := (wb_length b + Zlen d)%Z |} in
   (b', (wb_length b' >? max)%Z).
@@ -246,25 +248,31 @@ Section WStream.
                sc_ext_trailers := false; sc_ext_push := false; sc_ext_hint := false;
                sc_subprotocols := match hk_subs hk with Some l => l | None => [] end |}.
 
-  Fixpoint ws_handle_events (evs : list wsevent) : MP unit :=
-    match evs with
-    | [] => ret tt
-    | WMessage is_text d fin :: r =>
+  (* one iteration of the loop in _handle_events; returns true for `break` *)
+  Definition ws_one_event (e : wsevent) : MP bool :=
+    match e with
+    | WMessage is_text d fin =>
         s <- wgets ;;
         let '(b', too_large) := wb_extend (wc_max_message cfg) (ws_buffer s) is_text d in
         wset_buffer b' ;;
-        if too_large then ws_send_wsproto (WSClose 1009 None)      (* and break *)
+        if too_large then ws_send_wsproto (WSClose 1009 None) ;; ret true
         else
           (if fin then
              wapp_put (RWsReceive (wb_text b') (wb_data b')) ;; wset_buffer wb_empty
            else ret tt) ;;
-          ws_handle_events r
-    | WPing p :: r => ws_send_wsproto (WSPong p) ;; ws_handle_events r
-    | WPong _ :: r => ws_handle_events r
-    | WClose code reason remote_closing :: r =>
+          ret false
+    | WPing p => ws_send_wsproto (WSPong p) ;; ret false
+    | WPong _ => ret false
+    | WClose code reason remote_closing =>
         (if remote_closing then wset_close_code code ;; ws_send_wsproto (WSClose code (Some reason)) else ret tt) ;;
         psend EvStreamClosed ;;
-        ws_handle_events r
+        ret false
+    end.
+
+  Fixpoint ws_handle_events (evs : list wsevent) : MP unit :=
+    match evs with
+    | [] => ret tt
+    | e :: r => brk <- ws_one_event e ;; if brk then ret tt else ws_handle_events r
     end.
 
   (* WSStream.handle; Data/Body carry the wsproto events their bytes decode to *)
@@ -316,7 +324,6 @@ Section WStream.
         | Some row =>
         match msg with
         | MWsAccept sub headers =>
-            wset_state WConnected ;;
             extra <- wlift (validate_headers headers) ;;
             match ws_hk s with
             | None => raise EAttribute
@@ -324,6 +331,7 @@ Section WStream.
                 r <- wlift (hk_accept hk (ws_token s) (ws_ext_accepts s) sub extra) ;;
                 wset_hk (accepted_hk hk) ;; wset_has_conn ;;
                 psend (EvResponse (fst r) (snd r)) ;;
+                wset_state WConnected ;;
                 emit (OLogAccess (Some (fst r))) ;;
                 when (wc_ping_interval cfg) (emit (OSpawnTask "send_pings"))
             end
